@@ -7,6 +7,7 @@ from common import STDLIB_AXIOMS_REALS, Run, TranslateError
 import c04
 import c09
 import c11
+import c05
 import c12
 import ensemble as ens
 
@@ -14,7 +15,7 @@ PID = "C02"
 
 
 def translate():
-    c04.translate(); c12.translate(); c09.translate(); c11.translate()
+    c04.translate(); c12.translate(); c09.translate(); c11.translate(); c05.translate()
 
 
 def validate(run, tier):
@@ -22,7 +23,8 @@ def validate(run, tier):
     allowance 0.10); the N=128 cells have 192 runs so that a persistent bias of a few per cent in Z is visible
     (4 standard errors + 0.03)."""
     base = [dict(clustering=False), dict(clustering=True, sample="rwm", resample="syst")]
-    cells = [(c, 32, 24) for c in base] + [(c, 128, 192) for c in base]
+    # a tight volume-variation target makes the schedule wait at a temperature for several iterations (dynamic mode)
+    cells = [(c, 32, 24) for c in base] + [(c, 128, 192) for c in base] + [(dict(clustering=False, volume_variation=0.02), 64, 48)]
     if tier != "quick":
         more = [dict(clustering=True), dict(clustering=False, sample="rwm"), dict(clustering=True, cluster_every=2),
                 dict(clustering=False, sample="rwm", resample="mult", volume_variation=0.5)]
@@ -40,7 +42,7 @@ def validate(run, tier):
         e, se = ens.stats(lz, ens.TARGETS["interior"]["logz"])
         errs[(str(cfg), npart)] = (e, se)
         run.extra.setdefault("ensemble", []).append(dict(cfg=str(cfg), n_particles=npart, runs=R, logz_err=round(e, 4), se=round(se, 4)))
-        allowance = 0.10 if npart == 32 else 0.03
+        allowance = 0.10 if npart == 32 else (0.05 if npart == 64 else 0.03)
         if abs(e) > 4 * se + allowance:
             run.fail("evidence-biased", f"over {R} seeds with {npart} particles: mean log-evidence error {e:+.3f} (se {se:.3f})", **what)
         # independence across seeds: distinct seeds must not replay the same run
@@ -74,6 +76,7 @@ def independence_probe(run):
     from tempest import Sampler
     import tempest.steps.train as tr
     prints = {}
+    rows_of = {}
     orig = tr.Trainer.run
 
     for sd in (11, 12):
@@ -94,6 +97,11 @@ def independence_probe(run):
         finally:
             tr.Trainer.run = orig
         prints[sd] = rec
+        rows_of[sd] = {np.ascontiguousarray(r).tobytes() for batch in s.state._history["u"] for r in batch}
+    shared = rows_of[11] & rows_of[12]
+    if shared:
+        run.fail("runs-share-random-draws", f"runs seeded 11 and 12 contain {len(shared)} bit-identical particles: differently seeded runs "
+                 f"consume overlapping parts of one random stream", seeds=[11, 12], cfg=dict(clustering=True, n_particles=24))
     run.case(key=("independence", 11, 12), nontrivial=len(prints[11]) > 1)
     common = set(prints[11]) & set(prints[12])
     if common or len(set(prints[11])) < len(prints[11]):
@@ -120,7 +128,7 @@ def main(tier, seed):
     except Exception as e:  # fail closed: anything the translator cannot digest
         run.obligation("translate:all generated pieces used by C02", False, str(e))
     run.prove("Props/C02.v", link_rels=["Link/MIS.v", "Link/Posterior.v", "Link/Seeding.v"], allowed_axioms=STDLIB_AXIOMS_REALS)
-    run.prove("Props/C02W.v", link_rels=["Link/Warmup.v"])
+    run.prove("Props/C02W.v", link_rels=["Link/Warmup.v", "Link/Schedule.v"])
     try:
         validate(run, tier)
     except Exception:
